@@ -340,6 +340,10 @@ def run(c, chk):
     if not _c08.errno_reads(c, _c08.chk_proxy(chk, {'R8.6': 'R11.9'}), 'R8.6', funcs=names):
         chk.ok('R11.9', 'resolver functions', 'none of them reads errno', nontrivial=False)
 
+    # ---- R11.11: name=title reaches every titled instance (what walking the instances one by one finds) ----------
+    from . import c09 as _c09
+    _c09.untitled_does_not_end_search(c, _c08.chk_proxy(chk, {'R9.9': 'R11.11'}), ex)
+
     # ---- R11.10: where an unquoted qualifier ends ------------------------------------------------------
     qualifier_extent(c, chk, ex, sec)
 
